@@ -22,6 +22,7 @@ EXPLANATION = (
     ' (D6) work arrays allocated before a loop and re-used by every iteration: an iteration that rewrites only part of the buffer does not read beyond the rewritten range (stale rows of the previous channel block). D1 also understands counts accumulated over channel blocks.'
     ' (D1 as built) when the two proportion tests are not combined pairwise the function is evaluated on value terms (E14, sa/arrterm.py: out= / in-place / view semantics): flags must equal (mean_ch(|data| > 0.98 max_voltage) > proportion) | ([mean_ch(|diff(data)|/fs >= v_per_sec), 0] > proportion); a slew test on |data| is reported.'
     ' (D1 time blocks) when the per-sample fractions are filled block of samples by block, the block that is differentiated must reach one sample past the range it fills; padding every block with a 0 drops the slew across block edges.'
+    ' (D3 scatter form) the mute written as ones(ns) minus window taps laid around the flagged samples: tap offset k - (W - 1) // 2, taps of the cosine window, BOTH array bounds filtered (a negative index counts from the end), clamp at 0; an early all-ones return needs `no sample flagged`.'
 )
 ASSUMPTIONS = [
     "scipy.signal.windows.cosine is non-negative; scipy.signal.convolve of non-negative inputs is non-negative (model table)",
